@@ -158,8 +158,19 @@ def run(repo, chk):
     lf = src(gf.methods['label_for_func'])
     chk.expect('self.func_queue.pop()' in mf and 'self.func_queue.appendleft(sig)' in lf, 'C18.D1', 'function queue discipline',
                'functions are generated in first-use order (appendleft / pop)', GEN)
-    al = src(gf.methods['add_label'])
-    chk.expect("self.numbered_labels.get(name, 0)" in al and "f'{name}_{suffix}'" in al, 'C18.D1', 'add_label', 'labels numbered per prefix by a counter', GEN)
+    # add_label, interpreted: names depend only on the sequence of requests (a per-prefix counter), never on hashes / ids
+    try:
+        CGi = gf.module_ns()['CodeGen']
+        runs = []
+        for _ in range(2):
+            g = object.__new__(CGi)
+            g.numbered_labels = {}
+            runs.append([g.add_label(p).label_name for p in ('x', 'loop', 'x', 'x', 'loop', 'y')])
+        ok = runs[0] == runs[1] == ['x_0', 'loop_0', 'x_1', 'x_2', 'loop_1', 'y_0']
+        detail = f'{runs[0]}'
+    except Exception as e:      # noqa: BLE001
+        ok, detail = False, f'{type(e).__name__}: {e}'
+    chk.expect(ok, 'C18.D1', 'add_label', f'labels numbered per prefix by a counter: {detail}', GEN)
     chk.floor('files scanned', n_files, 20)
 
     # ---------------- D2 ------------------------------------------------------------------
@@ -186,7 +197,7 @@ def run(repo, chk):
     chk.floor('reads of stack_size', len(reads), 2)
     # stack-relative symbols in generated code are stack_start / stack_end only in the prologue
     gl = gf.methods['gen_lines']
-    ys = [n.value.value for n in ast.walk(gl) if isinstance(n, ast.Yield) and isinstance(n.value, ast.Constant) and isinstance(n.value.value, bytes)]
+    ys = gf.layout()
     chk.expect(b'ap: .word stack_start' in ys and b'fp: .word stack_end' in ys, 'C18.D2', 'gen_lines::ap/fp initial values',
                'ap starts at the bottom and fp at the top of the stack region', GEN)
 
@@ -236,9 +247,8 @@ def run(repo, chk):
     for fname, want in (('reserve_word', 'prev.add(offset=self.word_size)'), ('reserve_byte', 'prev.add(offset=1)')):
         t = src(gf.methods[fname])
         chk.expect(f'cur = {want}' in t, 'C18.D4', f'{fname}::growth', f'expected cur = {want}', GEN)
-    chk.expect(b'%format word ' in [y for y in [n.value.left.value for n in ast.walk(gl) if isinstance(n, ast.Yield)
-                                                and isinstance(n.value, ast.BinOp) and isinstance(n.value.left, ast.Constant)]]
-               and "str(self.word_size).encode('utf-8')" in src(gl), 'C18.D4', 'gen_lines::%format word', 'the word size is declared from the parameter', GEN)
+    chk.expect(b'%format word 2' in gf.layout(), 'C18.D4', 'gen_lines::%format word', 'the word size is declared from the parameter '
+               '(interpreted with word_size = 2)', GEN)
     # integer constants equal to a possible word size must not be used as sizes in the generator: look at emitted IntLiteral args
     suspicious = []
     for fname, fn in gf.methods.items():
